@@ -460,7 +460,7 @@ func TestVerifC23(t *testing.T) {
 			runOne(c)
 		}
 		r := vNewRand(vSeed())
-		n := vN(220, 2500)
+		n := vN(120, 1500)
 		for i := 0; i < n; i++ {
 			runOne(c23Gen(r.Fork()))
 		}
